@@ -25,61 +25,54 @@ open Umya.Reader Umya.Reader.Lemmas Umya.Spec.Xml Umya.XmlEsc
 
 /-! ## attribute and text values -/
 
-/-- **Attribute reading.**  For every raw attribute text without a literal tab, line feed or
-    carriage return: if the XML reader accepts it with value `v` (references well-formed and to legal
-    characters), `get_attribute` (`unescape`, raw text on failure) returns exactly `v`.
+/-- **Attribute reading.**  For EVERY raw attribute text: if the XML reader accepts it with value
+    `v` (references well-formed and to legal characters), `get_attribute` (white-space normalisation,
+    `unescape`, normalised raw text on failure) returns exactly `v`.
     Covers `&amp; &lt; &gt; &apos; &quot;`, decimal and hexadecimal character references of any
-    length, and any mixture with literal characters. -/
-theorem C03_attr (raw v : List Char) (hws : '\t' ∉ raw ∧ '\n' ∉ raw ∧ '\r' ∉ raw)
-    (hv : attrValue raw = some v) : attrRead raw = v := by
+    length, literal tab / LF / CR / CR LF (a blank each, 3.3.3 after 2.11) and any mixture.
+    (Before fix ddd0f34 this needed the hypothesis "no literal tab / LF / CR".) -/
+theorem C03_attr (raw v : List Char) (hv : attrValue raw = some v) : attrRead raw = v := by
   unfold attrValue at hv
-  rw [normalizeEol_noCR raw hws.2.2] at hv
-  have hl : ∀ c ∈ raw, (fun c => if c = '\t' ∨ c = '\n' ∨ c = '\r' then [' '] else [c]) c = [c] := by
-    intro c hc
-    have h1 : c ≠ '\t' := fun e => hws.1 (e ▸ hc)
-    have h2 : c ≠ '\n' := fun e => hws.2.1 (e ▸ hc)
-    have h3 : c ≠ '\r' := fun e => hws.2.2 (e ▸ hc)
-    simp [h1, h2, h3]
-  have := expand_agree _ raw none v hl hv
-  simp only at this
-  simp [attrRead, unescape, this]
+  rw [attrLit_eq] at hv
+  have h1 := expand_ws _ none v hv
+  simp only [Option.map_none] at h1
+  have h2 := expand_agree (fun c => [c]) _ none v (fun _ _ => rfl) h1
+  simp only at h2
+  simp [attrRead, unescape, attrNorm_eq, h2]
 
 /-- the same through `get_attribute` on a raw attribute list: the first attribute named `key` -/
 theorem C03_attr_get (attrs : List (List Char × List Char)) (key raw v : List Char)
-    (hf : attrs.find? (·.1 = key) = some (key, raw))
-    (hws : '\t' ∉ raw ∧ '\n' ∉ raw ∧ '\r' ∉ raw) (hv : attrValue raw = some v) :
+    (hf : attrs.find? (·.1 = key) = some (key, raw)) (hv : attrValue raw = some v) :
     getAttribute attrs key = some v := by
-  simp [getAttribute, hf, C03_attr raw v hws hv]
+  simp [getAttribute, hf, C03_attr raw v hv]
 
-/-- **Text reading** (`BytesText::unescape`): for raw character data without a carriage return the
-    library's value is the XML value. -/
-theorem C03_text (raw v : List Char) (hcr : '\r' ∉ raw) (hv : textValue raw = some v) :
-    unescape raw = some v := by
+/-- **Text reading** (`reader/driver.rs::unescape_text`): for EVERY raw character data the library's
+    value is the XML value: a literal CR LF / CR is one line feed (2.11), references are expanded.
+    (Before fix ddd0f34 this needed the hypothesis "no literal CR".) -/
+theorem C03_text (raw v : List Char) (hv : textValue raw = some v) : textRead raw = some v := by
   unfold textValue at hv
-  rw [normalizeEol_noCR raw hcr] at hv
-  have := expand_agree (fun c => [c]) raw none v (fun _ _ => rfl) hv
-  simpa [unescape] using this
+  have := expand_agree (fun c => [c]) _ none v (fun _ _ => rfl) hv
+  simpa [textRead, unescape, normEol_eq] using this
 
 /-- non-vacuity: `R&amp;D &lt;&#49;&#x3e; &quot;é&quot;` is accepted and means `R&D <1> "é"` -/
 example : attrValue "R&amp;D &lt;&#49;&#x3e; &quot;é&quot;".toList = some "R&D <1> \"é\"".toList ∧
     attrRead "R&amp;D &lt;&#49;&#x3e; &quot;é&quot;".toList = "R&D <1> \"é\"".toList := by
   constructor <;> decide
 
-/-- The hypothesis on literal white space is needed: XML turns a literal line feed inside an attribute
-    value into a blank (3.3.3), quick-xml does not.  (Replayed by the harness as `c03 reset edge 5`.) -/
-theorem C03_attr_literal_whitespace_fails :
-    ¬ ∀ raw v : List Char, attrValue raw = some v → attrRead raw = v := by
-  intro h
-  have := h ['a', '\n', 'b'] ['a', ' ', 'b'] (by decide)
-  revert this; decide
+/-- non-vacuity on literal white space: a literal line feed / CR LF inside an attribute value is a
+    blank (3.3.3), a referenced one stays.  (Replayed by the harness as `c03 reset edge 5`; before fix
+    ddd0f34 the library kept the literal characters: `C03_attr_literal_whitespace_fails`.) -/
+theorem C03_attr_literal_whitespace :
+    attrValue ['a', '\n', 'b', '\r', '\n', 'c', '&', '#', '1', '0', ';'] = some ['a', ' ', 'b', ' ', 'c', '\n'] ∧
+    attrRead ['a', '\n', 'b', '\r', '\n', 'c', '&', '#', '1', '0', ';'] = ['a', ' ', 'b', ' ', 'c', '\n'] := by
+  constructor <;> decide
 
-/-- likewise a literal CR LF in character data (XML 2.11) is not normalised
-    (known finding C03-literal-cr-not-normalised; corpus aaa.xlsx) -/
-theorem C03_text_literal_cr_fails :
-    ¬ ∀ raw v : List Char, textValue raw = some v → unescape raw = some v := by
-  intro h
-  have := h ['a', '\r', '\n', 'b'] ['a', '\n', 'b'] (by decide)
-  revert this; decide
+/-- likewise a literal CR LF in character data (XML 2.11) is one line feed and `&#13;` stays
+    (corpus aaa.xlsx; before fix ddd0f34: `C03_text_literal_cr_fails`) -/
+theorem C03_text_literal_cr :
+    textValue ['a', '\r', '\n', 'b', '\r', '&', '#', '1', '3', ';'] = some ['a', '\n', 'b', '\n', '\r'] ∧
+    textRead ['a', '\r', '\n', 'b', '\r', '&', '#', '1', '3', ';'] = some ['a', '\n', 'b', '\n', '\r'] := by
+  constructor <;> decide
 
 /-! ## `<col min max>` -/
 
